@@ -13,7 +13,8 @@ TMOD = "server/BuilderTrace.tla"
 NEGS = {"NEG_builder_TokenPerCall.cfg": ["B_TokensArePositions", "C01_OwnListenersService"],
         "NEG_builder_TokenForFailed.cfg": ["B_TokensArePositions", "B_NoPanic"],
         "NEG_builder_UdsKeepsToken.cfg": ["B_TokensArePositions", "B_NoPanic"],
-        "NEG_builder_ServeWhilePending.cfg": ["C07_NoCallWhilePending"]}
+        "NEG_builder_ServeWhilePending.cfg": ["C07_NoCallWhilePending"],
+        "NEG_builder_StopServesQueued.cfg": ["C01_QueuedReleasedAtStop"]}
 
 
 def script(rng, lay, with_die=True, both=False, hold=False):
@@ -55,6 +56,13 @@ def script(rng, lay, with_die=True, both=False, hold=False):
         c = rng.randint(1, ncalls)
         ev.append({"k": "fail", "c": c})
         ev += [{"k": "conn", "s": p} for p in order]
+    else:
+        # the server is stopped (forced or graceful) while two or three clients wait in the workers' queues behind a pending
+        # service: they are released, not served (C01)
+        ev.append({"k": "pend", "c": rng.randint(1, ncalls)})
+        rng.shuffle(order)
+        ev += [{"k": "conn", "s": p} for p in order[:3]]
+        ev.append({"k": "stop", "graceful": rng.random() < 0.5})
     return ev
 
 
